@@ -38,7 +38,7 @@ def centralMomentum (b : BodyKin K) : SV K := ⟨b.centralInertia.mulVec b.V.w, 
 /-- the body's contribution to `calcSystemMomentumAboutGroundOrigin`: `(I_c w + r % (m v_c), m v_c)` -/
 def originMomentum (b : BodyKin K) : SV K :=
   let c := b.centralMomentum
-  ⟨c.w.add (b.pos.cross c.v), c.v⟩
+  ⟨c.w.add (b.comLoc.cross c.v), c.v⟩
 end BodyKin
 
 def sumK (xs : List K) : K := xs.foldl (· + ·) 0
